@@ -553,9 +553,9 @@ pub fn build_hand(name: &str, rng: &mut Rng) -> Built {
             alphabets = vec![complex_alpha(rng)];
             rig1::<Complex, Complex>(rng, |r| bx!(FftFilter::new_engine(r, crate::dsp::ExactEngine::new(&taps))))
         }
-        "fftfx" => {
+        "fftfx" | "fftfx_3" => {
             // FftFilterFloat around the exact engine: the wrapper (inner streams, eof) against the model
-            let ntaps = rng.range(1, 40);
+            let ntaps = if name == "fftfx_3" { 3 } else { rng.range(1, 40) };
             let taps: Vec<Complex> = (0..ntaps).map(|_| Complex::new((rng.range(0, 4) as i32 - 2) as f32, 0.0)).collect();
             params = taps.iter().map(|t| t.re.to_bits() as u64 | ((t.im.to_bits() as u64) << 32)).collect();
             alphabets = vec![int_f32_alpha()];
@@ -782,6 +782,8 @@ pub fn build_hand(name: &str, rng: &mut Rng) -> Built {
     // Hilbert calls filter_float: the model must use the kernel this build compiles
     let name = if name == "hilbert" && crate::dsp::kernel_name() != "scalar" {
         format!("hilbert_{}", crate::dsp::kernel_name())
+    } else if name == "fftfx_3" {
+        "fftfx".to_string()
     } else {
         name.to_string()
     };
@@ -1540,7 +1542,7 @@ fn eof_sound_line(name: &str, id: &str, nout: usize, a: &RunOut, b: &RunOut) -> 
             for j in 0..nout {
                 if r.produced_total[j] > at[j] {
                     ev = format!(
-                        "FAIL {which} run: eof() answered true after call {call} with {} items delivered on output {j}; the calls after it delivered {} more (a runner retiring the block there loses them)",
+                        "FAIL {which} run: after call {call} the runners retire the block (eof() true, or a wait on an ended input that cannot be satisfied) with {} items delivered on output {j}; the calls after it delivered {} more (lost)",
                         at[j],
                         r.produced_total[j] - at[j]
                     );
@@ -1549,6 +1551,34 @@ fn eof_sound_line(name: &str, id: &str, nout: usize, a: &RunOut, b: &RunOut) -> 
         }
     }
     format!("!eofsound {id}\t{ev}\t{}", if ev == "pass" { String::new() } else { format!("{name}-eof-early") })
+}
+
+/// FftFilterFloat around the exact engine, compared with the wrapper model call by call (eof() answers
+/// included): the output is left full until both the outer output stream and the inner output stream have
+/// filled up, then the input ends and the backlog is taken in one go. The input length is swept over a range
+/// that contains every alignment of "exactly one batch still unfiltered inside" (the boundary of `eof()`).
+pub fn fftfx_probes(rng: &mut Rng) -> Vec<String> {
+    let mut out = vec![];
+    for total in 1520..1700usize {
+        let mut r = rng.clone();
+        let built = build("fftfx_3", &mut r);
+        let ins = vec![InSpec { pkts: vec![], len: total, seed: 7 + total as u64, m: 0, tbl: int_f32_alpha().1, tags: vec![], fixed: None }];
+        let mut acts = vec![];
+        for _ in 0..8 {
+            acts.push(Act::Feed(0, 100_000));
+            acts.push(Act::Work);
+        }
+        acts.push(Act::Close(0));
+        for _ in 0..4 {
+            acts.push(Act::Work);
+            acts.push(Act::Drain(0, 100_000));
+            acts.push(Act::Work);
+        }
+        let req = request(&built.name, &built.params, &built.rig, &ins, &acts);
+        let obs = run_case(built.rig, &ins, &acts);
+        out.push(format!("{req}\t{obs}"));
+    }
+    out
 }
 
 pub fn case(name: &str, rng: &mut Rng, steps: usize, heavy_tags: bool) -> String {
@@ -1684,6 +1714,10 @@ pub fn run(args: &[String]) -> Vec<String> {
     for _ in 0..arg_usize(args, "--zc-ideal", 0) {
         let mut r = rng.fork();
         out.push(zc_ideal_check(&mut r));
+    }
+    if arg_usize(args, "--fftfx-probes", 0) != 0 {
+        let mut r = rng.fork();
+        out.extend(fftfx_probes(&mut r));
     }
     for i in 0..arg_usize(args, "--tight-probes", 0) {
         let mut r = rng.fork();
